@@ -109,7 +109,7 @@ fn parse_vs_reference<const N: usize>() {
     }
 }
 
-// @prop C06
+// @prop C06 C07 C09
 // @fn Frame::parse, Frame::get_message_length, Frame::get_message_id, Handshake::check, Choke::check, Unchoke::check, Interested::check, NotInterested::check, Have::check, Bitfield::check, Request::check, Piece::check, Cancel::check, *::from
 // @bound every byte string of 0..=20 bytes (all lengths, all contents)
 // @outside buffers longer than 20 (quick) / 72 (thorough, handshake-sized) bytes; frames near 64 KiB are covered only through the length arithmetic
